@@ -242,7 +242,10 @@ theorem pick_tok (a : Addr) (fuel : Nat) (w : Worker) :
       · split
         · exact Nat.le_trans (ih _) (by simp [tokW])
         · split
-          · exact Nat.le_trans (ih _) (by simp [tokW])
+          · exact Nat.le_trans (ih _) (by
+              simp only [tokW]
+              have := cntA_taskErase_le a w.tasks ‹Addr›
+              omega)
           · simp [phi, tokMsgs, sumBy, tokW]
 
 theorem desiredResult_tables (w w' : Worker) (t t' : Task) (v : Option Val)
@@ -377,19 +380,17 @@ theorem runBody_tok (a : Addr) (tbl : Table) (fuel : Nat) (r : Run) :
       ≤ phi a r.w r.out + ind a r.w (runBody tbl fuel r).1.w :=
   runBody_tok' a tbl fuel r r.w (phi a r.w r.out) (Mono.refl _) (Nat.le_add_right _ _)
 
-theorem completionLoop_tok (a : Addr) (fuel i : Nat) (r : Run) :
-    phi a (completionLoop fuel i r).1.w (completionLoop fuel i r).1.out = phi a r.w r.out := by
-  induction fuel generalizing i r with
-  | zero => rfl
-  | succ n ih =>
+theorem completionLoop_tok (a : Addr) (ms : List Nat) (r : Run) :
+    phi a (completionLoop ms r).1.w (completionLoop ms r).1.out = phi a r.w r.out := by
+  induction ms generalizing r with
+  | nil => rfl
+  | cons m ms ih =>
     simp only [completionLoop]
     split
-    · rfl
     · split
-      · split
-        · rw [ih]; rfl
-        · rw [ih, phi_cancelBox]
-      · rfl
+      · rw [ih]; rfl
+      · rw [ih, phi_cancelBox]
+    · rfl
 
 theorem processCompletion_tok (a : Addr) (r : Run) (v : Val) :
     phi a (processCompletion r v).1.w (processCompletion r v).1.out ≤ phi a r.w r.out := by
